@@ -134,12 +134,17 @@ func tid(t *Term) int {
 
 func (s *TermStore) mk(op Op, sort Sort, w uint8, a, b, c *Term, k uint64) *Term {
 	key := termKey{op, sort, w, tid(a), tid(b), tid(c), k}
-	if t, ok := s.tab[key]; ok {
-		return t
+	t, ok := s.tab[key]
+	if !ok {
+		t = &Term{Op: op, Sort: sort, W: w, A: a, B: b, C: c, K: k, ID: len(s.all)}
+		s.all = append(s.all, t)
+		s.tab[key] = t
 	}
-	t := &Term{Op: op, Sort: sort, W: w, A: a, B: b, C: c, K: k, ID: len(s.all)}
-	s.all = append(s.all, t)
-	s.tab[key] = t
+	if ex != nil && len(ex.known) > 0 {
+		if c, ok := ex.known[t]; ok {
+			return c
+		}
+	}
 	return t
 }
 
@@ -340,6 +345,13 @@ func Bin(op Op, a, b *Term) *Term {
 				return BV(0, w)
 			}
 			return Bin(op, a.A, BV(s, w))
+		}
+		// (a ± b) & lowmask: low bits depend only on low bits of the operands
+		if op == OAnd && k != 0 && k&(k+1) == 0 && (a.Op == OAdd || a.Op == OSub) {
+			pa, pb := Bin(OAnd, a.A, b), Bin(OAnd, a.B, b)
+			if (pa.IsConst() && !a.A.IsConst()) || (pb.IsConst() && !a.B.IsConst()) {
+				return Bin(OAnd, Bin(a.Op, pa, pb), b)
+			}
 		}
 		// (zext x) & mask-of-x-width → zext x ; (zext x) >> k with k >= xw → 0
 		if a.Op == OZext {
